@@ -11,7 +11,9 @@
   (`updState`, `updStatus`, `mergeState`, …) is tied by the correspondence run.
 -/
 import ControlModel.Gen.StateAlgebra
+import ControlModel.Gen.MergeFacts
 import ControlModel.Proofs.RoleTree
+import ControlModel.Proofs.RoleTreeConc
 
 open RoleTree RoleTree.Forest
 
@@ -176,3 +178,158 @@ theorem C11_children_order_irrelevant (n : Nat) (f : Forest) :
     | agg s u kids next =>
       obtain ⟨h1, h2⟩ := ih next
       exact ⟨by simp [swapAt, specState, h1], by simp [swapAt, specStatus?, h2]⟩
+
+/-! ## concurrent delivery: "an ERROR of a critical task is never lost nor invented at the root,
+    also when updates arrive concurrently"
+
+  Model/RoleTreeConc.lean: every update is a thread whose atomic steps are the lock-protected
+  accesses the Go code makes (write the leaf; take the parent's lock and apply a shortcut or fold
+  the children one read at a time and store; read the merged role's state again for ITS parent).
+  The theorems below are for EVERY tree, EVERY set of updates and EVERY schedule (any list of
+  thread numbers). They start from a configuration in which no thread has started (`allStart`).
+  The model is tied to the real roles by the controlled-interleaving runs of
+  harness/props/c11/conc.go, its locking discipline by `C11_merge_under_lock_is_code`. -/
+
+open RoleTree.Conc
+
+/-- go/ast facts, re-extracted on every run: `SafeState.merge` and `SafeStatus.merge` take the
+    role's mutex in their first statement, release it by a `defer` in the second, touch the mutex
+    nowhere else, and call the re-aggregation of the children inside that body — the whole merge
+    (compare, shortcuts, fold, store) is one critical section, which is what `step` assumes. -/
+theorem C11_merge_under_lock_is_code :
+    Gen.mergeFacts.map (fun f => (f.1, f.2.1, f.2.2.1, f.2.2.2.1, f.2.2.2.2.1, f.2.2.2.2.2.1)) =
+      [("core/workflow/safestate.go", "merge", true, true, 0, true),
+       ("core/workflow/safestatus.go", "merge", true, true, 0, true)] := by
+  decide
+
+/-- Never lost, at every aggregator: when all updates have been delivered, an aggregator one of
+    whose children (aggregator or critical task/call) is in ERROR reports ERROR. -/
+theorem C11_conc_error_propagates (T : Topo) (c0 : Cfg) (sched : List Nat)
+    (hs : allStart T c0 = true) (he : errUp T c0.st = true)
+    (hq : quiescent T (exec T c0 sched) = true) :
+    errUp T (exec T c0 sched).st = true :=
+  NL_quiescent T _ (exec_inv T (NL T) (NL_step T) sched c0 (NL_init T c0 hs he)) hq
+
+/-- Never lost at the root: for every loaded tree, every set of updates and every schedule, once
+    all updates have been delivered a critical task in ERROR means the root reports ERROR. -/
+theorem C11_conc_error_not_lost (T : Topo) (c0 : Cfg) (sched : List Nat) (hwf : T.wf = true)
+    (hs : allStart T c0 = true) (he : errUp T c0.st = true)
+    (hq : quiescent T (exec T c0 sched) = true) (l : Nat) (hl : T.crit l = true)
+    (herr : (exec T c0 sched).st l = .ERROR) : (exec T c0 sched).st 0 = .ERROR :=
+  up_to_root T _ hwf ((errUp_iff T _).mp (C11_conc_error_propagates T c0 sched hs he hq))
+    l (crit_lt_len hl) (contrib_of_crit hl) herr
+
+theorem anyErr_false_iff (T : Topo) (st : Nat → TState) :
+    anyErr T st = false ↔ ∀ n, T.contrib n = true → st n ≠ .ERROR := by
+  simp only [anyErr, List.any_eq_false, List.mem_range, Bool.and_eq_true, beq_iff_eq, not_and]
+  constructor
+  · intro h n hn
+    have hlt : n < T.nodes.length := by
+      rcases contrib_cases hn with ha | hc
+      · exact agg_lt_len ha
+      · exact crit_lt_len hc
+    exact h n hlt hn
+  · intro h n _ hn
+    exact h n hn
+
+/-- Never invented: from a tree in which nothing that counts is in ERROR, at ANY moment of ANY
+    schedule (quiescent or not) the root reports ERROR only if at that or an earlier moment some
+    critical task/call role was in ERROR. -/
+theorem C11_conc_error_not_invented (T : Topo) (c0 : Cfg) (sched : List Nat) (hroot : T.agg 0 = true)
+    (hs : allStart T c0 = true) (hclean : anyErr T c0.st = false)
+    (herr : (exec T c0 sched).st 0 = .ERROR) :
+    ∃ k, k ≤ sched.length ∧ ∃ l, T.crit l = true ∧ (exec T c0 (sched.take k)).st l = .ERROR :=
+  not_invented_aux T (contrib_of_agg hroot) sched c0 (PcOk_init T c0 hs)
+    (Clean_init T c0 hs ((anyErr_false_iff T c0.st).mp hclean)) herr
+
+/-- …and that ERROR was DELIVERED: one of the updates puts a critical task/call role into ERROR. -/
+theorem C11_conc_error_needs_error_update (T : Topo) (c0 : Cfg) (sched : List Nat) (hroot : T.agg 0 = true)
+    (hs : allStart T c0 = true) (hclean : anyErr T c0.st = false)
+    (herr : (exec T c0 sched).st 0 = .ERROR) : errUpdate T = true := by
+  obtain ⟨k, _, l, hl, hst⟩ := C11_conc_error_not_invented T c0 sched hroot hs hclean herr
+  have hsrc : LeafSrc T c0.st (exec T c0 (sched.take k)) ∧ PcOk T (exec T c0 (sched.take k)) :=
+    exec_inv T (fun c => LeafSrc T c0.st c ∧ PcOk T c)
+      (fun c i c' h m => ⟨LeafSrc_step T c0.st c i c' h.2 h.1 m, PcOk_step T c i c' h.2 m⟩)
+      (sched.take k) c0 ⟨fun n _ => Or.inl rfl, PcOk_init T c0 hs⟩
+  rcases hsrc.1 l (crit_not_agg hl) with h0 | ⟨j, hj⟩
+  · exact absurd (h0 ▸ hst) ((anyErr_false_iff T c0.st).mp hclean l (contrib_of_crit hl))
+  · rw [hst] at hj
+    simp only [errUpdate, List.any_eq_true, Bool.and_eq_true, beq_iff_eq]
+    exact ⟨(l, .ERROR), List.mem_of_getElem? hj, hl, rfl⟩
+
+/-- The role's mutex does its job in the model: in every reachable configuration at most one thread
+    is folding the children of a given role (this is the step the theorems above rest on: a stale
+    fold cannot overwrite a later merge). -/
+theorem C11_conc_mutex (T : Topo) (c0 : Cfg) (sched : List Nat) (hs : allStart T c0 = true)
+    (j1 j2 : Nat) (h1 : j1 < T.nT) (h2 : j2 < T.nT) (p : Nat) (t1 t2 : List Nat) (a1 a2 : TState)
+    (e1 : (exec T c0 sched).pc j1 = .fold p t1 a1) (e2 : (exec T c0 sched).pc j2 = .fold p t2 a2) :
+    j1 = j2 :=
+  exec_inv T (Mutex T) (Mutex_step T) sched c0 (Mutex_init T c0 hs) j1 j2 h1 h2 p t1 a1 t2 a2 e1 e2
+
+/-- The decidable predicate the harness evaluates on what the REAL roles report when every
+    UpdateState has returned (`Conc.concOk`, Spec/C11Conc.lean) holds of the model for every loaded
+    tree, every set of updates and every schedule. -/
+theorem C11_conc_spec (T : Topo) (c0 : Cfg) (sched : List Nat) (hwf : T.wf = true)
+    (hs : allStart T c0 = true) (he : errUp T c0.st = true)
+    (hq : quiescent T (exec T c0 sched) = true) :
+    concOk T c0.st (exec T c0 sched).st = true := by
+  have h1 := C11_conc_error_propagates T c0 sched hs he hq
+  have h2 : notLost T (exec T c0 sched).st = true := by
+    simp only [notLost, Bool.or_eq_true, Bool.not_eq_true', beq_iff_eq]
+    by_cases hc : critLeafErr T (exec T c0 sched).st = true
+    · right
+      simp only [critLeafErr, List.any_eq_true, List.mem_range, Bool.and_eq_true, beq_iff_eq] at hc
+      obtain ⟨l, _, hl, hst⟩ := hc
+      exact C11_conc_error_not_lost T c0 sched hwf hs he hq l hl hst
+    · left; simpa using hc
+  have h3 : notInvented T c0.st (exec T c0 sched).st = true := by
+    simp only [notInvented, Bool.or_eq_true, Bool.not_eq_true', beq_eq_false_iff_ne, ne_eq]
+    by_cases herr : (exec T c0 sched).st 0 = .ERROR
+    · by_cases hclean : anyErr T c0.st = true
+      · exact Or.inr hclean
+      · exact Or.inl (Or.inr (C11_conc_error_needs_error_update T c0 sched (wf_root T hwf) hs
+          (by simpa using hclean) herr))
+    · exact Or.inl (Or.inl herr)
+  have h4 : leavesOk T c0.st (exec T c0 sched).st = true := by
+    have hsrc : LeafSrc T c0.st (exec T c0 sched) ∧ PcOk T (exec T c0 sched) :=
+      exec_inv T (fun c => LeafSrc T c0.st c ∧ PcOk T c)
+        (fun c i c' h m => ⟨LeafSrc_step T c0.st c i c' h.2 h.1 m, PcOk_step T c i c' h.2 m⟩)
+        sched c0 ⟨fun n _ => Or.inl rfl, PcOk_init T c0 hs⟩
+    simp only [leavesOk, List.all_eq_true, List.mem_range, Bool.or_eq_true, beq_iff_eq,
+      List.any_eq_true, Bool.and_eq_true]
+    intro k _
+    by_cases ha : T.agg k = true
+    · exact Or.inl (Or.inl ha)
+    · rcases hsrc.1 k (by simpa using ha) with h0 | ⟨j, hj⟩
+      · exact Or.inl (Or.inr h0)
+      · exact Or.inr ⟨_, List.mem_of_getElem? hj, rfl, rfl⟩
+  simp [concOk, h1, h2, h3, h4]
+
+/-- Non-vacuity and a worked schedule: root → [task B, task A], both critical and RUNNING; thread 0
+    moves A to CONFIGURED and is in the middle of its fold (it has read B = RUNNING) when thread 1
+    puts B into ERROR; thread 1 is blocked by the root's mutex until thread 0 has stored MIXED, then
+    overrides it: the hypotheses of the theorems hold and the root ends in ERROR. -/
+example :
+    let T : Topo := ⟨[⟨none, true, false⟩, ⟨some 0, false, true⟩, ⟨some 0, false, true⟩],
+                    [(2, .CONFIGURED), (1, .ERROR)]⟩
+    let c0 : Cfg := ⟨fun _ => .RUNNING, fun _ => .start⟩
+    let sched := [0, 0, 0, 1, 1, 0, 0, 1]
+    T.wf = true ∧ allStart T c0 = true ∧ errUp T c0.st = true ∧ anyErr T c0.st = false ∧
+    quiescent T (exec T c0 sched) = true ∧ (exec T c0 sched).st 1 = .ERROR ∧
+    (exec T c0 sched).st 0 = .ERROR ∧ (exec T c0 (sched.take 5)).st 0 = .RUNNING := by
+  decide
+
+/-- What is NOT true under concurrency (and why the concurrent clause is about ERROR only): the
+    full fold can be stale when everything has been delivered. Root → P → [A, B]; thread 0 (A →
+    CONFIGURED) merges P to MIXED and reads that MIXED for the root; thread 1 (B → CONFIGURED)
+    then brings P and the root to CONFIGURED; thread 0 finally delivers its stale MIXED to the root
+    through the MIXED shortcut. All tasks are CONFIGURED, the root says MIXED. (Model-level fact:
+    the harness cannot hold a real goroutine between `r.state.get()` and the parent's lock.) -/
+theorem C11_conc_stale_aggregate_possible :
+    ∃ (T : Topo) (c0 : Cfg) (sched : List Nat), T.wf = true ∧ allStart T c0 = true ∧
+      aggOk T c0.st = true ∧ quiescent T (exec T c0 sched) = true ∧
+      aggOk T (exec T c0 sched).st = false :=
+  ⟨⟨[⟨none, true, false⟩, ⟨some 0, true, false⟩, ⟨some 1, false, true⟩, ⟨some 1, false, true⟩],
+     [(2, .CONFIGURED), (3, .CONFIGURED)]⟩,
+   ⟨fun _ => .STANDBY, fun _ => .start⟩,
+   [0, 0, 0, 0, 0, 0, 1, 1, 1, 1, 1, 1, 1, 1, 1, 0], by decide⟩
